@@ -110,4 +110,64 @@ func init() {
 			})
 		}
 	}
+	// two goroutines reaching the SAME call site together (cold and warm cache), with a scheduling point
+	// after every publishing atomic / sync.Map operation: a lookup that publishes a cache entry before it
+	// has filled it in shows up as an empty or foreign location
+	for _, fast := range []bool{false, true} {
+		for _, warm := range []bool{false, true} {
+			fast, warm := fast, warm
+			register("C11", fmt.Sprintf("c11/same-site-together/fast=%v/warm-cache=%v", fast, warm), "qt", func(tier string) *zzvrt.Scenario {
+				b := zzvrt.Bounds{Preempt: 2, Horizon: 5000}
+				if tier == "thorough" {
+					b.Preempt = 3
+				}
+				var want []string
+				var rerr error
+				return &zzvrt.Scenario{
+					Before: func() { resetAll(); lrecStore = nil; want = nil; rerr = nil },
+					Opts:   zzvrt.RunOpts{Bounds: b, PostPublish: true},
+					Body: func() {
+						zzvrt.Atomic(func() {
+							rerr = log.Refresh(map[string]string{"appender.l.type": "LRec", "logger.root.type": "Logger", "logger.root.appenderRef.ref": "l",
+								"enableCaller": "true", "fastCaller": fmt.Sprint(fast)})
+							if rerr == nil && warm {
+								want = append(want, callerSiteA(90))
+							}
+						})
+						if rerr != nil {
+							return
+						}
+						done := 0
+						for g := 0; g < 2; g++ {
+							g := g
+							zzvrt.GoNamed(fmt.Sprintf("g%d", g), func() {
+								want = append(want, callerSiteA(10*g+1))
+								want = append(want, callerSiteB(10*g+2))
+								done++
+							})
+						}
+						zzvrt.WaitUntil(func() bool { return done == 2 })
+						zzvrt.Atomic(log.Destroy)
+					},
+					Check: func(x *zzvrt.Exec) (string, []zzvrt.Violation) {
+						key := fmt.Sprintf("same site, fast=%v warm=%v", fast, warm)
+						if x.Outcome != "" {
+							return x.Outcome, []zzvrt.Violation{{Clause: "no-" + strings.SplitN(x.Outcome, ":", 2)[0], Key: key, Detail: x.Outcome}}
+						}
+						if rerr != nil {
+							return "err", []zzvrt.Violation{{Clause: "setup", Key: key, Detail: rerr.Error()}}
+						}
+						var v []zzvrt.Violation
+						got := sortedCopy(lrecStore)
+						exp := sortedCopy(want)
+						if strings.Join(got, "\n") != strings.Join(exp, "\n") {
+							v = append(v, zzvrt.Violation{Clause: "wrong-location-under-concurrency", Key: key,
+								Detail: fmt.Sprintf("records %v, the calling statements are %v", got, exp)})
+						}
+						return strings.Join(lrecStore, ","), v
+					},
+				}
+			})
+		}
+	}
 }
